@@ -70,7 +70,7 @@ fn exec(c: &Case) -> Vec<String> {
     for attempt in 0..2 {
         out.clear();
         let uniq = UNIQ.fetch_add(1, std::sync::atomic::Ordering::SeqCst);
-        let r = run_job(job, n, bm, &cfg, None, uniq, Duration::from_secs(30));
+        let r = run_job(job, n, bm, &cfg, None, uniq, Duration::from_secs(30 * nvh::load_factor() as u64));
         let mut infra = false;
         let mut nsinks = 0;
         for h in &r.hosts {
